@@ -16,7 +16,8 @@ RULE = ("(a) generated interfaces x 1 canonical + k random renderings of each (p
         "against the Lean model and against its documented contract on all digraphs with <= 3 keys (every dependency "
         "subset incl. a dangling edge, every key order; 4 keys exhaustively and 5..7 keys sampled in the thorough "
         "tier); non-trivial = every rendering pair x operation / type, every graph with an edge; distinct = distinct "
-        "of those")
+        "of those"
+        " ; plus: types looked up through the document's own prefix (ns0/ns1/ns2 bound to other namespaces included), named versus anonymous restricted simple types")
 ASSUMPTIONS = ["anonymous inline types are used only where the abstract interface never needs the type's name "
                "(not in rpc/encoded interfaces, not for derived or base types, not for operation parameters)",
                "decoded objects are compared without their class names when a rendering inlines types "
